@@ -19,6 +19,7 @@ func init() {
 		Sign(c, "R-SIGN", libPkgs(c))
 		Strict(c, "R-STRICT", libPkgs(c))
 		NoSwap(c, "R-NOSWAP", []*packages.Package{c.Pkg("ord")})
+		Trichotomy(c, "R-TRICHOTOMY", ordPkgs, 2)
 	})
 }
 
